@@ -63,8 +63,14 @@ def stepLine (_ : Unit) (line : String) : Unit × String :=
           | none => pure (showOutcome (printf fmt args))
         | "sn" | "vsn" => do
           -- the harness hands over an allocation of exactly `size` bytes filled with a5
+          -- (a declared size above 4096 means "large enough": the allocation is then exactly output + NUL)
           let l ← limit
-          let mem := List.replicate l.toNat (Char.ofNat 0xa5)
+          let extent : Nat :=
+            if l ≤ 4096 then l.toNat
+            else match printf fmt args with
+              | .done out _ => out.length + 1
+              | _ => 0
+          let mem := List.replicate extent (Char.ofNat 0xa5)
           match (if op = "sn" then snprintf mem l.toNat fmt args else vsnprintf mem l.toNat fmt args) with
           | some (buf, ret) => pure (showRes ret buf)
           | none =>
